@@ -47,6 +47,35 @@ class Box:
         return 'Box(' + self.pretty() + ')'
 
 
+def _guillotine(t0, t1, x0, x1, boxes):
+    """True iff `boxes` tile the dyadic region exactly as the leaves of some bisection tree of it"""
+    stack = [(t0, t1, x0, x1, boxes)]
+    while stack:
+        t0, t1, x0, x1, bs = stack.pop()
+        if len(bs) == 1:
+            b = bs[0]
+            if (b.t0, b.t1, b.x0, b.x1) != (t0, t1, x0, x1):
+                return False
+            continue
+        if not bs:
+            return False
+        tm, xm = (t0 + t1) >> 1, (x0 + x1) >> 1
+        lo = [b for b in bs if b.t1 <= tm]
+        hi = [b for b in bs if b.t0 >= tm]
+        if len(lo) + len(hi) == len(bs) and lo and hi:
+            stack.append((t0, tm, x0, x1, lo))
+            stack.append((tm, t1, x0, x1, hi))
+            continue
+        lo = [b for b in bs if b.x1 <= xm]
+        hi = [b for b in bs if b.x0 >= xm]
+        if len(lo) + len(hi) == len(bs) and lo and hi:
+            stack.append((t0, t1, x0, xm, lo))
+            stack.append((t0, t1, xm, x1, hi))
+            continue
+        return False
+    return True
+
+
 class Model:
     def __init__(self, n_t, n_x, glued, leaves=None):
         self.n_t, self.n_x, self.glued = n_t, n_x, glued
@@ -210,12 +239,15 @@ class Model:
                 area = sum((b.t1 - b.t0) * (b.x1 - b.x0) for b in bs)
                 if area != ONE * ONE:
                     out.append(('area', (j, i), area / (ONE * ONE)))
-                for p in range(len(bs)):
-                    a = bs[p]
-                    for q in range(p + 1, len(bs)):
-                        c = bs[q]
-                        if min(a.t1, c.t1) > max(a.t0, c.t0) and min(a.x1, c.x1) > max(a.x0, c.x0):
-                            out.append(('overlap', a, c))
+                if not _guillotine(j * ONE, (j + 1) * ONE, i * ONE, (i + 1) * ONE, bs):
+                    out.append(('not_a_bisection_tiling', (j, i)))
+                    if len(bs) <= 800:
+                        for p in range(len(bs)):
+                            a = bs[p]
+                            for q in range(p + 1, len(bs)):
+                                c = bs[q]
+                                if min(a.t1, c.t1) > max(a.t0, c.t0) and min(a.x1, c.x1) > max(a.x0, c.x0):
+                                    out.append(('overlap', a, c))
         return out
 
     def refines(self, other):
